@@ -169,7 +169,7 @@ def same_text(net, o, text, entry):
     return None
 
 
-def oracle(op: str, out: str):
+def _oracle(op: str, out: str):
     a = op.split(" ")
     if out.startswith("err"):
         return "exception escapes the parser: %s" % out[4:]
@@ -241,7 +241,7 @@ def model_safe(s: str) -> bool:
     return True
 
 
-def gen(ctx, emit):
+def _gen(ctx, emit):
     rng = ctx.rng
 
     def rb(n):
@@ -409,10 +409,10 @@ def gen(ctx, emit):
         for name in ("btc", "grs"):
             every(name, t, ["script", "payable", "call"], kinds=False)
     alphabet = "0123456789abcdefABCDEFxX_+-:/,. \t\n'[]OP_1EHlIO\u00e9\u00df\u0131\u017f\u0661\uff11\u2003\u00a0\U0001f600\ud800"
-    for _ in range(ctx.n(150, 3000)):
+    for _ in range(ctx.n(150, 20000)):
         t = "".join(rng.choice(alphabet) for _ in range(rng.randrange(1, 12)))
         every(rng.choice(few), t, ["call", "public_key", "secret", "script", "bip32_seed", "hd_seed", "sec", "secret_exponent", "public_pair"], kinds=False)
-    for _ in range(ctx.n(100, 2000)):
+    for _ in range(ctx.n(100, 10000)):
         t = "".join(chr(rng.choice([rng.randrange(32, 127), rng.randrange(0x80, 0x3000), rng.randrange(0x3000, 0x11000)])) for _ in range(rng.randrange(1, 10)))
         every(rng.choice(few), t, ["call", "public_key", "hierarchical_key"], kinds=False)
 
@@ -423,3 +423,25 @@ def _has_point(x):
         return True
     except ValueError:
         return False
+
+
+def oracle(op: str, out: str):
+    """the property evaluated on the implementation; on the unchanged tree no step of it raises"""
+    try:
+        return _oracle(op, out)
+    except ImportError:
+        return None   # Groestl hash library absent
+    except Exception as e:  # noqa: BLE001
+        return "evaluating the property on the implementation raised %s" % type(e).__name__
+
+
+def gen(ctx, emit):
+    import traceback
+    try:
+        _gen(ctx, emit)
+    except Exception as e:  # noqa: BLE001
+        tb = traceback.extract_tb(e.__traceback__)
+        where = next((fr for fr in reversed(tb) if "/pycoin/" in fr.filename), tb[-1])
+        ctx.violation("building the inputs through the public API raised %s" % type(e).__name__,
+                      "<generator> %s:%d %s" % (where.filename.split("/pycoin/")[-1], where.lineno, where.name),
+                      expected="the API calls the generators use succeed", observed=repr(e)[:200], kind="oracle")
